@@ -312,6 +312,10 @@ def btake(s, k):
         FACTS.add(z3.Implies(k >= blen(s), z3.And(t == s, blen(d) == 0)), "take-drop-over")
         FACTS.add(z3.Implies(z3.And(k >= 1, blen(s) >= 1), head(t) == head(s)), "head-take")
         regb(t); regb(d)
+        if kc is not None and 0 <= kc <= 4096:
+            # a prefix of at most kc bytes: its value is below 256**kc (the general bound goes through the symbol 2**(8*len))
+            FACTS.add(z3.And(blen(t) <= kc, bval(t) < 256 ** kc), "take-bound")
+            FACTS.add(z3.And(blen(rev(t)) <= kc, bval(rev(t)) < 256 ** kc, bval(rev(t)) >= 0), "take-bound")
         if kc is not None and kc >= 0:
             set_known_len(d, None)
     return t
